@@ -61,10 +61,106 @@ def run(ctx, chk):
                 chk.sample({"rule": "C17.R1", "site": "%s:%d %s" % (fk, n.lineno, ast.unparse(n)),
                             "verdict": "examined (bound guard or covering handler required)"})
     chk.floor("C17.R1", look, 3, "look-ahead subscripts seq[i+k] reachable from search_dates")
+    # parallel-index sites B[i] with i the position in another list: each reachable one is an obligation
+    # (an unproved one is already a finding through the escape analysis; here the proofs are put on record)
+    n_par = 0
+    for (fk, sub_t, seq_t), verdict in sorted(ef.parallel_index_log.items()):
+        if fk not in reach:
+            continue
+        n_par += 1
+        f = ctx.ix.funcs[fk]
+        if not verdict.startswith("UNPROVED"):
+            chk.ob("C17.R1", "%s: %s stays inside its list while walking %s" % (f.qual, sub_t, seq_t), True, verdict,
+                   key={"function": fk, "construct": "parallel index %s over %s" % (sub_t, seq_t)}, file=f.file, function=f.qual, line=f.node.lineno)
+        chk.sample({"rule": "C17.R1", "site": "%s %s over %s" % (fk, sub_t, seq_t), "verdict": verdict})
+    chk.floor("C17.R1.parallel", n_par, 8, "subscripts indexed by the position in another list")
     for reason, sites in sorted(ex.used.items()):
         chk.note("exemption (%d sites): %s" % (len(sites), reason))
     chk.assume("operations outside the primitive table raise nothing")
     r3(ctx, chk)
+    r4(ctx, chk)
+
+
+def r4(ctx, chk):
+    """non-blank substrings: pieces of a chunk that was split (str.split) may be empty or punctuation only; a substring
+    derived from such a piece must be tested before it is reported"""
+    rule = "C17.R4"
+    ix = ctx.ix
+    pf = ix.func("dateparser.search.search:_ExactLanguageSearch.parse_found_objects")
+    rets = [s for s in iter_own_stmts(pf.node.body) if isinstance(s, ast.Return) and isinstance(s.value, ast.Tuple)]
+    if not rets:
+        raise AnalysisError(rule, "parse_found_objects does not return a tuple")
+    out_all = [e.id if isinstance(e, ast.Name) else None for e in rets[0].value.elts]
+    # which element of the returned tuple holds the substrings: the first argument of the zip() in search_parse
+    sp = ix.func("dateparser.search.search:_ExactLanguageSearch.search_parse")
+    pos = None
+    for n in iter_own_nodes(sp.node):
+        if isinstance(n, ast.Assign) and isinstance(n.targets[0], ast.Tuple) and isinstance(n.value, ast.Call) \
+                and ast.unparse(n.value.func).endswith("parse_found_objects"):
+            unpack = [ast.unparse(e) for e in n.targets[0].elts]
+            for z in iter_own_nodes(sp.node):
+                if isinstance(z, ast.Call) and isinstance(z.func, ast.Name) and z.func.id == "zip" and z.args and ast.unparse(z.args[0]) in unpack:
+                    pos = unpack.index(ast.unparse(z.args[0]))
+    if pos is None or pos >= len(out_all) or out_all[pos] is None:
+        raise AnalysisError(rule, "cannot tell which list returned by parse_found_objects holds the substrings")
+    out_names = {out_all[pos]}
+
+    def splits(f, depth=0):
+        """the function (or a project callee, two levels) builds its result with str.split"""
+        for n in iter_own_nodes(f.node):
+            if isinstance(n, ast.Call) and isinstance(n.func, ast.Attribute) and n.func.attr == "split" and not (
+                    isinstance(n.func.value, ast.Name) and n.func.value.id in ("re", "regex")):
+                return True
+        if depth < 2:
+            for site in ctx.cg.sites.get(f.key, []):
+                if any(splits(c, depth + 1) for c in site.callees):
+                    return True
+        return False
+
+    def names_in(e):
+        return {x.id for x in ast.walk(e) if isinstance(x, ast.Name)}
+    tainted = set()
+    src = 0
+    for n in iter_own_nodes(pf.node):
+        if isinstance(n, ast.Assign) and isinstance(n.value, ast.Call):
+            for site in ctx.cg.sites.get(pf.key, []):
+                if site.node is n.value and site.callees and all(splits(c) for c in site.callees):
+                    for t in n.targets:
+                        tainted |= names_in(t)
+                    src += 1
+    chk.floor(rule, src, 1, "results of splitting an unparsed chunk")
+    changed = True
+    while changed:
+        changed = False
+        for n in iter_own_nodes(pf.node):
+            new = set()
+            if isinstance(n, ast.For) and names_in(n.iter) & tainted:
+                new = names_in(n.target)
+            elif isinstance(n, ast.Assign) and names_in(n.value) & tainted:
+                for t in n.targets:
+                    new |= {x.id for x in ast.walk(t) if isinstance(x, ast.Name) and isinstance(x.ctx, ast.Store)}
+            elif isinstance(n, ast.Call) and isinstance(n.func, ast.Attribute) and n.func.attr in ("append", "extend", "insert") \
+                    and isinstance(n.func.value, ast.Name) and n.args and names_in(n.args[-1]) & tainted:
+                new = {n.func.value.id}
+            new -= set(x for x in out_all if x)
+            if not new <= tainted:
+                tainted |= new
+                changed = True
+    from ..core.ctx import conjuncts, enclosing_tests
+    n_sink = 0
+    for n in iter_own_nodes(pf.node):
+        if isinstance(n, ast.Call) and isinstance(n.func, ast.Attribute) and n.func.attr == "append" and isinstance(n.func.value, ast.Name) \
+                and n.func.value.id in out_names and n.args and names_in(n.args[0]) & tainted:
+            v = " ".join(ast.unparse(n.args[0]).split())
+            facts = {" ".join(ast.unparse(a).split()) for t, pol in enclosing_tests(pf.node, n) for a, p in conjuncts(t, pol) if p}
+            if not any(isinstance(a_, ast.Constant) and isinstance(a_.value, str) for a_ in [n.args[0]]):
+                n_sink += 1
+                ok = bool({v, v + ".strip()", "len(%s) > 0" % v, "%s != ''" % v} & facts)
+                chk.ob(rule, "a substring taken from a split piece is reported only when it is not blank", ok,
+                       "`%s` can be '' (a piece made of spaces or punctuation only): search_dates then returns ('', datetime)" % v,
+                       key={"function": pf.key, "construct": "non-blank guard on " + n.func.value.id + ".append"}, file=pf.file,
+                       function=pf.qual, line=n.lineno, text=" ".join(ast.unparse(n).split())[:120])
+    chk.floor(rule + ".sinks", n_sink, 1, "reported substrings that come from split pieces")
 
 
 def _appends(stmts, names):
